@@ -12,6 +12,7 @@ pub mod c14;
 pub mod c17;
 pub mod c18;
 pub mod c19;
+pub mod c20;
 pub mod c21;
 pub mod c23;
 pub mod c24;
@@ -28,6 +29,7 @@ pub fn all() -> Vec<PropDef> {
         c17::def(),
         c18::def(),
         c19::def(),
+        c20::def(),
         c21::def(),
         c23::def(),
         c24::def(),
